@@ -402,7 +402,15 @@ class Array(metaclass=MetaArray):
                     dshape = []  # index of dynamic shapes
                     for ndim in cls._shape:
                         if ndim is None:
-                            shape.append(args[len(dshape)])
+                            # plain integers: the strides computed from narrow
+                            # numpy integers overflow, a negative length would
+                            # reserve less than the header that gets written
+                            dim = int(args[len(dshape)])
+                            if dim < 0:
+                                raise ValueError(
+                                    f"Array: negative dimension {dim}"
+                                )
+                            shape.append(dim)
                             dshape.append(len(shape))
                         else:
                             shape.append(ndim)
